@@ -3,6 +3,7 @@ layout as c12_pymachine."""
 
 from __future__ import annotations
 
+import time
 from typing import Any, Dict, List
 
 from . import c12_rom as R
@@ -27,7 +28,19 @@ def request_of(sc: Dict[str, Any]) -> Dict[str, Any]:
 def run_batch(scs: List[Dict[str, Any]]) -> List[Dict[str, Any]]:
     if not scs:
         return []
-    resp = rsclient.shared().call({"cmd": "machine.run", "scenarios": [request_of(s) for s in scs]})
+    req = {"cmd": "machine.run", "scenarios": [request_of(s) for s in scs]}
+    resp = None
+    for attempt in range(4):
+        # The harness subprocess is occasionally killed from outside on a shared box (rc -15/-9).  The request is a
+        # pure function of the scenarios, so re-sending it to a fresh subprocess is sound; a reproducible crash
+        # still ends as HarnessError (exit 2), never as a verdict.
+        try:
+            resp = rsclient.shared().call(req)
+            break
+        except HarnessError:
+            if attempt == 3:
+                raise
+            time.sleep(0.5 * (attempt + 1))
     if not resp.get("ok"):
         raise HarnessError(f"machine.run failed: {str(resp)[:300]}")
     res = resp["results"]
